@@ -145,9 +145,3 @@ Fixpoint rpath (n : nid) (t : itree) : option (list nat) :=
   match t with
   | INode i _ kids => if N.eqb i n then Some [] else rpath_kids (rpath n) 0 kids
   end.
-
-(* ---- what traverse_df_ltr_btt yields when filters are passed: it descends through matching children only ---- *)
-Fixpoint post_pruned (F : nfilter) (s : itree) : list nid :=
-  match s with INode i _ kids => flat_map (fun k => if F (iid k) then post_pruned F k else []) kids ++ [i] end.
-Definition a_df_btt_pruned (t : itree) (F : nfilter) (n : nid) : list nid :=
-  match a_sub t n with Some s => post_pruned F s | None => [] end.
